@@ -322,7 +322,7 @@ func (r *runner) plan(sys string, thorough bool, rng *rand.Rand) error {
 		}
 		return nil
 	}
-	one := sys == "fmap" || sys == "dup"
+	one := sys == "fmap" || sys == "dup" || sys == "fmapch"
 	// (0) nothing at all: zero inputs / no items, every interleaving (both tiers)
 	if err := each(ZeroConfigs(sys), 150000, false); err != nil {
 		return err
@@ -353,6 +353,19 @@ func (r *runner) plan(sys string, thorough bool, rng *rand.Rand) error {
 	if one {
 		if err := each(SmallConfigs(sys, 1, map[bool]int{false: 3, true: 4}[thorough], 2), por, true); err != nil {
 			return err
+		}
+		// input capacities 3 and 4 (the producer may run ahead and close right after its last send)
+		for _, c := range SmallConfigs(sys, 1, map[bool]int{false: 3, true: 5}[thorough], 4) {
+			if c.Caps[0] >= 3 {
+				if err := r.dfs(c, por, true); err != nil {
+					return err
+				}
+			}
+		}
+		if sys == "fmapch" { // every pattern of items for which the function returns nil
+			if err := each(FmapChConfigs(map[bool]int{false: 3, true: 4}[thorough], 2), por, true); err != nil {
+				return err
+			}
 		}
 	} else {
 		if err := each(SmallConfigs(sys, 2, 2, 1), por, true); err != nil {
